@@ -298,6 +298,9 @@ func newValCodec(vt string) *valCodec {
 		c.zero = SV{}
 	case "ptrstruct":
 		c.zero = PV{}
+	case "nilstr":
+		// values that may be nil (a tree used as a set): ValuesLike nil, needs UnmarshalerUsesRegisteredTypes
+		c.zero = nil
 	default:
 		panic("unknown value type " + vt)
 	}
@@ -319,11 +322,22 @@ func (c *valCodec) Val(rank int) interface{} {
 	case "ptrstruct":
 		p := fmt.Sprintf("p%d", rank) // a fresh allocation every time
 		return PV{X: rank, P: &p}
+	case "nilstr":
+		if rank == 1 {
+			return nil
+		}
+		return fmt.Sprintf("v%d", rank)
 	}
 	panic("val")
 }
 
 func (c *valCodec) Rank(v interface{}) int {
+	if v == nil {
+		if c.name == "nilstr" {
+			return 1
+		}
+		return -1
+	}
 	switch x := v.(type) {
 	case int:
 		return x
